@@ -97,9 +97,106 @@ def coupled_updates(ctx, rid, adt, pairs, floor, exempt=None, only_pairs=None):
                 ctx.bad(o, "%s builds a %s whose `%s` is %s but whose `%s` is an unmodified copy of self.%s: %s"
                         % (short(s.fn), adtn, a, "modified" if ca.kind == "changed" else "new", b, b, why),
                         loc=s.instr.line(), sample=row)
+            elif (a, b) in ALWAYS_TOGETHER and ca.kind == "changed" and cb.kind == "changed" and _unconditional(ctx, s, ca) \
+                    and not _unconditional(ctx, s, cb) and not _condition_looks_at_new_tour(ctx, s, cb):
+                w = [x.instr for x in cb.writes if x.instr is not None]
+                ctx.bad(o, "%s rebuilds `%s` on every path to this result but `%s` only under a condition (%s): on the other paths `%s` is stale: %s"
+                        % (short(s.fn), a, b, ", ".join(i.line() for i in w[:2]), b, why), loc=w[0].line() if w else s.instr.line(), sample=row)
             else:
                 ctx.ok(o, "%s=%s %s=%s" % (a, ca.short(), b, cb.short()), sample=row)
     return sites
+
+
+# pairs whose second member is maintained by a helper that itself does nothing when nothing changed: on the reference tree it is
+# called on every path; a caller-side condition is accepted only if it compares what the helper maintains (the tour's depots / costs)
+ALWAYS_TOGETHER = {("tours", "depot_usage"), ("tours", "next_period_transitions"), ("tours", "costs")}
+TOUR_GETTERS = ("start_depot", "end_depot", "first_node", "last_node", "costs", "maintenance_counter", "total_distance")
+
+
+def _condition_looks_at_new_tour(ctx, s, c):
+    fd = ctx.an.fd(s.fn)
+    for w in c.writes:
+        if w.instr is None:
+            continue
+        site_ctl = {sw.bb for sw, _c, _d in controlling_sources(fd, s.instr)}
+        for sw, cal, d in controlling_sources(fd, w.instr):
+            if sw.bb in site_ctl:
+                continue        # an early exit guards the write and the result alike; only the extra conditions matter
+            # direct provenance of the condition (both sides of a comparison), not its whole slice: insert_path / remove also
+            # return the displaced path, and a condition on THAT says nothing about the depots of the new tour
+            names = list(direct_chain(fd, sw.ops[0]))
+            top = direct_def_instr(fd, sw.ops[0])
+            guard = 0
+            while top is not None and top.kind == "assign" and top.rv_kind() in ("unop", "use") and top.ops and guard < 4:
+                guard += 1
+                top = direct_def_instr(fd, top.ops[0])
+            if top is not None:
+                ops = top.args if top.kind == "call" else (top.ops if top.kind == "assign" else [])
+                for op in ops:
+                    names += list(direct_chain(fd, op))
+            if any(n == T(g) for g in TOUR_GETTERS for n in names):
+                return True
+    return False
+
+
+def _unconditional(ctx, s, c):
+    """some write to the working copy happens on every path that reaches the construction site"""
+    fd = ctx.an.fd(s.fn)
+    if fd is None:
+        return True
+    ws = [w.instr for w in c.writes if w.instr is not None]
+    if not ws:
+        return True
+    return any(fd.cfg.instr_dominates(w, s.instr) for w in ws)
+
+
+def bookkeeping_sees_new_maps(ctx, rid, sites):
+    """a helper of impl Schedule that is handed a vehicle->tour / vehicle map inside a producer is handed the producer's working
+    copy, not the map of the old schedule, whenever the producer rebuilds that map"""
+    want = {"Tour": "tours", "Vehicle": "vehicles"}
+    by_fn = {}
+    for s in sites:
+        by_fn.setdefault(s.fn, []).append(s)
+    for fn, ss in sorted(by_fn.items()):
+        fd = ctx.an.fd(fn)
+        sp = prov.self_param_of(fd.body, SCHEDULE)
+        if sp is None:
+            continue
+        bad, n = [], 0
+        for c in fd.body.calls():
+            if not (c.callee or "").startswith(SCHEDULE + "::") or c.callee == SCHEDULE_NEW:
+                continue
+            for ai, a in enumerate(c.args):
+                if a.place is None or not a.place.is_local:
+                    continue
+                ty = fd.body.local_ty(a.place.local)
+                fld = None
+                for tname, f in want.items():
+                    if ty.startswith("&") and "HashMap<" in ty and ("::%s," % tname in ty or "::%s>" % tname in ty or " %s," % tname in ty or " %s>" % tname in ty):
+                        fld = f
+                if fld is None:
+                    continue
+                origin = prov.ref_origin(fd, a.place.local, sp)
+                n += 1
+                if origin != (fld,):
+                    continue
+                # the old map is handed over: is the map rebuilt in a result this call can reach?
+                reach = fd.cfg.reachable_from(c.bb)
+                for s in ss:
+                    cl = s.fields.get(fld)
+                    if cl is not None and cl.kind != "same" and s.instr.bb in reach:
+                        bad.append((c, fld))
+                        break
+        if not n:
+            continue
+        o = ctx.ob("%s.%s.helpers-see-new-maps" % (rid, short(fn)), "T2", fn,
+                   "%s: bookkeeping helpers are handed the rebuilt tours / vehicles, not self's" % short(fn))
+        if bad:
+            c, fld = bad[0]
+            ctx.bad(o, "%s at %s is handed &self.%s although %s rebuilds `%s`: the helper computes its update from the OLD %s, so the "
+                    "caches it maintains describe the schedule before the change" % (short(c.callee), c.line(), fld, short(fn), fld, fld), loc=c.line())
+        else:
+            ctx.ok(o, "%d map argument(s), none is the stale self.%s" % (n, "tours/vehicles"))
 
 
 def lost_update_rule(ctx, rid, adt, sites):
